@@ -48,7 +48,12 @@ pub struct GenCfg {
 }
 
 pub fn input_name(i: usize, anon: bool) -> String {
-    if anon { format!("_input_{i}") } else { format!("i{i}") }
+    // anonymous signals carry the reader's default prefixes: `_input_N` and (demoted states) `_state_N`
+    if anon {
+        if i % 2 == 1 { format!("_state_{i}") } else { format!("_input_{i}") }
+    } else {
+        format!("i{i}")
+    }
 }
 pub fn state_name(i: usize) -> String {
     format!("s{i}")
